@@ -43,7 +43,10 @@ def scratch_dir(tag):
 def _copy_specs(dst):
     for fn in os.listdir(SPEC):
         if fn.endswith((".tla", ".cfg")):
-            shutil.copy(os.path.join(SPEC, fn), os.path.join(dst, fn))
+            try:
+                shutil.copy(os.path.join(SPEC, fn), os.path.join(dst, fn))
+            except FileNotFoundError:      # a scratch file of a concurrent run vanished: not ours
+                pass
 
 
 _STATS = re.compile(r"(\d+) states generated, (\d+) distinct states found")
